@@ -139,3 +139,8 @@ LEVEL_TEXT = ("Lean theorems: the sort.go comparator is a strict weak order on r
 LEVEL_NOTE = ("Trusted: sort.Slice sorts correctly given a strict weak order (unstable; ties not compared). NULL placement is claimed "
               "for a single sort key only, as in the property.")
 TECHNIQUE = "Lean 4 proof (order laws of the comparator, drop/take arithmetic by omega) + differential correspondence, exhaustive windows"
+
+# the text of the functions this property's model mirrors is a regenerated fact (Obligations/PinC05: closed by rfl)
+FACTS = True
+LEAN_TARGETS = list(LEAN_TARGETS) + ["Genql.Obligations.PinC05"]
+THEOREMS = list(THEOREMS) + ["Genql.Obligations.PinC05.pinned_text"]
